@@ -135,7 +135,8 @@ def main():
       "1-bit formats are sign functions (property C04) and are excluded from the half-step claim",
       "denormal inputs are zeros to TensorFlow (DAZ) and are excluded from the sign-sensitive monotonicity check",
   ]
-  return rep.finish(vlib.TRUSTED_COMMON + ["model Quant/Fixed.v is hand-written; tie = exact comparison with the implementation on every generated case"])
+  return rep.finish(vlib.TRUSTED_COMMON + ["translators tools/translate/{lingen,qbitsgen}.py (Python ast interpreters, fail closed) regenerate coq/gen/{LinGen,QBitsGen}.v from qkeras/quantizers.py; Link/{LinLink,QBitsLink}.v prove them equal to the model on the deterministic, data-independent paths",
+                                          "model Quant/Fixed.v is hand-written; tie = exact comparison with the implementation on every generated case"])
 
 
 if __name__ == "__main__":
